@@ -86,10 +86,11 @@ pub fn run_proc(case: &ProcCase) -> ProcOutcome {
     PANIC_MSG.with(|m| *m.borrow_mut() = None);
     let mut recs: Vec<OpRec> = vec![];
     let ops = case.ops.clone();
+    let setpgid_cfg = case.plan.setpgid;
     ip::IN_LIB.store(true, SeqCst);
     let res = std::panic::catch_unwind(std::panic::AssertUnwindSafe(|| {
         ip::FAKE_FORK.store(true, SeqCst);
-        let created = Popen::create(&["/nonexistent/verif-fake"], PopenConfig::default());
+        let created = Popen::create(&["/nonexistent/verif-fake"], PopenConfig { setpgid: setpgid_cfg, ..Default::default() });
         ip::FAKE_FORK.store(false, SeqCst);
         let mut popen = match created {
             Ok(p) => Some(p),
@@ -580,7 +581,7 @@ fn plan_strategy() -> impl Strategy<Value = ProcPlan> {
         1 => (0u64..4_000_000_000_000).prop_map(Some),
     ];
     let sig = prop_oneof![3 => Just(None), 2 => (1u8..65, any::<bool>()).prop_map(Some)];
-    (exit_after, any::<u8>(), sig, reaction_strategy(), reaction_strategy(), delay_strategy(), prop_oneof![Just(0u32), Just(1_000u32), Just(50_000u32)]).prop_map(|(exit_after, exit_code, exit_signal, on_term, on_other, kill_delay, cost_ns)| ProcPlan { exit_after, exit_code, exit_signal, on_term, on_other, kill_delay, cost_ns })
+    (exit_after, any::<u8>(), sig, reaction_strategy(), reaction_strategy(), delay_strategy(), prop_oneof![Just(0u32), Just(1_000u32), Just(50_000u32)], prop_oneof![3 => Just(false), 1 => Just(true)]).prop_map(|(exit_after, exit_code, exit_signal, on_term, on_other, kill_delay, cost_ns, setpgid)| ProcPlan { exit_after, exit_code, exit_signal, on_term, on_other, kill_delay, cost_ns, setpgid })
 }
 
 fn op_strategy(focus: Focus, thorough: bool) -> BoxedStrategy<HOp> {
